@@ -1,15 +1,15 @@
-//! C03 — engine not implemented yet.
+//! C03 — engine over the shared ST-core corpus (see `stcore::judge`).
 
 use crate::fw::*;
 use crate::iso::WorkerFn;
 use serde_json::Value;
 
-pub fn run(_ctx: &Ctx) -> EngineResult {
-    machinery("engine C03 not implemented")
+pub fn run(ctx: &Ctx) -> EngineResult {
+    crate::stcore::judge::run_engine(ctx, "C03")
 }
 
-pub fn check_case(_case: &Value) -> Vec<Violation> {
-    Vec::new()
+pub fn check_case(case: &Value) -> Vec<Violation> {
+    crate::stcore::judge::replay("C03", case)
 }
 
 pub fn workers() -> Vec<(&'static str, WorkerFn)> {
